@@ -493,3 +493,30 @@ def parse_expr(text, env=None, prog=None, func=None):
     """normalise a reference expression written in python syntax (names are free variables)"""
     e = ast.parse(text, mode="eval").body
     return VN(prog, func, env).expr(e)
+
+
+def _symbols(key, out):
+    """operator symbols (function / method / numpy names) occurring anywhere in a normal-form key"""
+    if isinstance(key, tuple):
+        if key and isinstance(key[0], str):
+            h = key[0]
+            if h in ("fn", "meth", "call", "red") and len(key) > 1 and isinstance(key[1], str):
+                out.add("%s:%s" % (h, key[1]))
+            elif h.startswith("np."):
+                out.add(h)
+            elif h in ("dot", "T", "index", "norm", "setitem", "ifexp", "cmp", "pow", "getattr", "floordiv", "mod"):
+                out.add(h)
+        for x in key:
+            _symbols(x, out)
+
+
+def comparable(got, ref):
+    """
+    True  -> both normal forms use the same operator symbols: a difference is a difference of coefficients / signs /
+             terms / operands / axes (a classified difference);
+    False -> `got` uses an operator the reference does not know (another formulation): the comparison cannot decide.
+    """
+    a, b = set(), set()
+    _symbols(got.key(), a)
+    _symbols(ref.key(), b)
+    return a <= b
